@@ -1380,8 +1380,18 @@ func (in *Interp) rangeNext(it *IterState, x *ssa.Next) Value {
 		}
 		// byte-wise decoding for ASCII; symbolic or non-ASCII bytes are concretised
 		cells := it.str.Cells(tc)
-		c := in.concretize(cells[it.i], "range string byte")
 		i := it.i
+		// an ASCII byte is its own rune: stays symbolic; only non-ASCII lead bytes are concretised
+		if in.branch(tc.Bin(OpUlt, cells[i], tc.Const(0x80, 8))) {
+			it.i++
+			return Tuple{tc.True, tc.Const(uint64(i), 64), tc.ZExt(cells[i], 32)}
+		}
+		saved := in.concCap
+		if in.concCap < 130 {
+			in.concCap = 130
+		}
+		c := in.concretize(cells[it.i], "range string byte")
+		in.concCap = saved
 		if c < 0x80 {
 			it.i++
 			return Tuple{tc.True, tc.Const(uint64(i), 64), tc.Const(c, 32)}
